@@ -635,6 +635,13 @@ class RequestHandler(BaseProtocol, Generic[_Request]):
                     request.remote,
                     exc_info=exc.__cause__,
                 )
+            if request.writer.output_size > 0:
+                # The handler already started a response: a second one cannot
+                # be written into it, the connection is broken (cf. handle_error).
+                raise ConnectionError(
+                    "Response is sent already, cannot send another response "
+                    "with the error message"
+                ) from exc
             resp = Response(
                 status=exc.status, reason=exc.reason, text=exc.text, headers=exc.headers
             )
